@@ -23,6 +23,7 @@ pub struct Case {
     pub adversary: Option<Box<dyn Adversary>>,
     pub keep_bytes: bool,
     pub record_probes: bool,
+    pub send_yields: bool,
     /// per-party overrides (C18): (inputs, p_eval, p_own, p_out, circuit)
     pub overrides: Vec<Option<PartyArgs>>,
 }
@@ -51,6 +52,7 @@ impl Case {
             adversary: None,
             keep_bytes: true,
             record_probes: false,
+            send_yields: false,
             overrides: vec![None; n],
         }
     }
@@ -100,6 +102,7 @@ pub fn exec_mpc(mut case: Case) -> Exec {
         g.dead_send = case.dead_send;
         g.adversary = case.adversary.take();
         g.keep_bytes = case.keep_bytes;
+        g.send_yields = case.send_yields;
     }
     let dirs: Vec<Option<PathBuf>> = (0..n)
         .map(|p| if case.tmp[p] { Some(fresh_scratch_dir(&format!("p{p}"))) } else { None })
